@@ -268,6 +268,35 @@ def tlc_batch(jobs, tier: str = 'quick'):
 
 
 
+# One fork pool for ALL replays of a run: every part submits (worker, jobs, continuation); flush() maps them together
+# (starting a pool per configuration costs more than the small configurations themselves).
+_PENDING: list = []
+
+
+def submit(worker, jobs, then) -> None:
+    _PENDING.append((worker.__name__, [j for j in jobs], then))
+
+
+def _dispatch(item):
+    name, job = item
+    return globals()[name](job)
+
+
+def flush() -> None:
+    flat = [(name, j) for name, jobs, _ in _PENDING for j in jobs]
+    # longest jobs first would need a cost model; interleave the parts instead so that no part is last alone
+    order = sorted(range(len(flat)), key=lambda i: (i * 7919) % max(len(flat), 1))
+    res = core.pool_map(_dispatch, [flat[i] for i in order], procs=PROCS)
+    back = [None] * len(flat)
+    for i, r in zip(order, res):
+        back[i] = r
+    pos = 0
+    for name, jobs, then in _PENDING:
+        then(back[pos:pos + len(jobs)])
+        pos += len(jobs)
+    _PENDING.clear()
+
+
 # ------------------------------------------------------------------------------------------
 # failure bookkeeping inside workers: one entry per feature class (first instance + count)
 
@@ -424,8 +453,8 @@ CLASS_CONFIGS = {
         ('items11', '1.1', dict(ItemNames={"a", "AS", "5", "i", "I", "c", "C", "d", "D", "w"}, ItemNames3=set(),
                                 SubNames=set(), MaxItems=2, MaxSubItems=1), 8, 2),
         # (large positive sets in the main group are avoided where the subtracted class has a negated part:
-        #  CharacterClass.__isub__ then intersects code point by code point, [\\w-[\\D]] takes seconds)
-        ('sub', '1.0', dict(ItemNames={"a", "5", "d", "D", "S"}, ItemNames3=set(),
+        #  CharacterClass.__isub__ then intersects code point by code point, [\\w-[\\D]] and [\\D\\S-[^a]] take seconds)
+        ('sub', '1.0', dict(ItemNames={"a", "5", "d", "D"}, ItemNames3=set(),
                             SubNames={"a", "5", "d", "D", "S"}, MaxItems=2, MaxSubItems=2), 64, 8),
     ],
     'thorough': [
@@ -479,13 +508,11 @@ def run_classes(chk: core.Check, totals: dict, done: dict) -> None:
         states = [(dict(items=st['items'], neg=st['neg'], sub=st['sub']), frozenset(st['den']), pin.get(class_key(st)))
                   for st in g.states.values() if st['items']]
         states.sort(key=lambda x: render_class(x[0]))
-        t0 = time.time()
         jobs = [(ver, ch, fn_mod, xsd_mod) for ch in core.chunked(states, 64)]
-        collect(chk, core.pool_map(class_worker, jobs, procs=PROCS), totals, 'class')
+        submit(class_worker, jobs, lambda res: collect(chk, res, totals, 'class'))
         chk.add('transitions', len(g.edges))
         chk.add('traces_validated_against_impl', len(states))
-        print(f'  RegexClass/{name}: states={len(g.states)} pinned-model-refuted={refuted} '
-              f'replay={time.time() - t0:.1f}s', flush=True)
+        print(f'  RegexClass/{name}: states={len(g.states)} pinned-model-refuted={refuted}', flush=True)
     n = totals.get('pinned_model_refuted_states', 0)
     if chk.tier == 'thorough':
         chk.note(f'RegexClass: the model of the (positive, negative) algorithm as it was before commit b292dd3 '
@@ -706,27 +733,26 @@ def run_asts(chk: core.Check, totals: dict, done: dict) -> None:
             raise tla.MachineryError(f'RegexAst/{name}: laws are vacuous, top-level node types reached: {sorted(tops)}')
         states = [(st['r'], frozenset(st['full']), frozenset(st['found'])) for st in g.states.values()]
         states.sort(key=lambda x: (depth(x[0]), render(x[0])))
-        t0 = time.time()
         jobs = [(flag, ver, states[k::48], subjects, fn_mod) for k in range(48)]
-        results = core.pool_map(ast_worker, [j for j in jobs if j[2]], procs=PROCS)
-        # blame: a compound pattern's failure is attributed to an atom that already fails on its own
-        raw = [f for res in results for f in res[1]]
-        bad_atoms = {(f[0][0], f[2]) for f in raw if f[1] == 0 and len(f[0]) == 1}
-        bad_any_mode = {a for a, _ in bad_atoms}
-        bag = Bag()
-        for tags, dp, mode, which, d, case, e, o, qa in raw:
-            blame = next((t for t in tags if (t, mode) in bad_atoms), None) or \
-                next((t for t in tags if t in bad_any_mode), 'structure')
-            feat = dict(kind='ast', flag=flag, xsd_version=ver, mode=mode, which=which, blame=blame, direction=d,
-                        quantified_anchor=qa)
-            bag.fail(feat, case, e, o, f"{case['pattern']!r} flag={flag!r} {mode}/{which}: should match {e}, "
-                                       f"should not match {o}" if not isinstance(o, list) or d in
-                     ('accepts_too_much', 'rejects_too_much', 'both') else f"{case['pattern']!r} {mode}: {o}")
-        collect(chk, [(res[0], [], res[2], res[3], res[4]) for res in results] + [bag.result()], totals, 'ast')
+        def finish(results, flag=flag, ver=ver):
+            # blame: a compound pattern's failure is attributed to an atom that already fails on its own
+            raw = [f for res in results for f in res[1]]
+            bad_atoms = {(f[0][0], f[2]) for f in raw if f[1] == 0 and len(f[0]) == 1}
+            bad_any_mode = {a for a, _ in bad_atoms}
+            bag = Bag()
+            for tags, dp, mode, which, d, case, e, o, qa in raw:
+                blame = next((t for t in tags if (t, mode) in bad_atoms), None) or \
+                    next((t for t in tags if t in bad_any_mode), 'structure')
+                feat = dict(kind='ast', flag=flag, xsd_version=ver, mode=mode, which=which, blame=blame, direction=d,
+                            quantified_anchor=qa)
+                bag.fail(feat, case, e, o, f"{case['pattern']!r} flag={flag!r} {mode}/{which}: should match {e}, "
+                                           f"should not match {o}" if not isinstance(o, list) or d in
+                         ('accepts_too_much', 'rejects_too_much', 'both') else f"{case['pattern']!r} {mode}: {o}")
+            collect(chk, [(res[0], [], res[2], res[3], res[4]) for res in results] + [bag.result()], totals, 'ast')
+        submit(ast_worker, [j for j in jobs if j[2]], finish)
         chk.add('transitions', len(g.edges))
         chk.add('traces_validated_against_impl', len(states))
-        print(f'  RegexAst/{name}: states={len(g.states)} edges={len(g.edges)} tlc={r.wall_s:.1f}s '
-              f'replay={time.time() - t0:.1f}s', flush=True)
+        print(f'  RegexAst/{name}: states={len(g.states)} edges={len(g.edges)} tlc={r.wall_s:.1f}s', flush=True)
 
 
 # ------------------------------------------------------------------------------------------
@@ -862,13 +888,11 @@ def run_fns(chk: core.Check, totals: dict, done: dict) -> None:
         if not any(len(x[4]) > 1 for x in states) or not any(not x[3] for x in states):
             raise tla.MachineryError(f'RegexFns/{name}: vacuous (no ambiguous partition or no non-matching input)')
         states.sort(key=lambda x: (render(x[0]), x[1]))
-        t0 = time.time()
         jobs = [(flag, '1.0', states[k::48]) for k in range(48)]
-        collect(chk, core.pool_map(fns_worker, [j for j in jobs if j[2]], procs=PROCS), totals, 'fns')
+        submit(fns_worker, [j for j in jobs if j[2]], lambda res: collect(chk, res, totals, 'fns'))
         chk.add('transitions', len(g.edges))
         chk.add('traces_validated_against_impl', len(g.edges))
-        print(f'  RegexFns/{name}: states={len(g.states)} edges={len(g.edges)} tlc={r.wall_s:.1f}s '
-              f'replay={time.time() - t0:.1f}s', flush=True)
+        print(f'  RegexFns/{name}: states={len(g.states)} edges={len(g.edges)} tlc={r.wall_s:.1f}s', flush=True)
 
 
 # ------------------------------------------------------------------------------------------
@@ -1005,17 +1029,15 @@ def run_syntax(chk: core.Check, totals: dict, done: dict) -> None:
         n_valid = sum(1 for s in states if s[1])
         if not n_valid or n_valid == len(states):
             raise tla.MachineryError(f'RegexSyntax/{name}: vacuous ({n_valid} valid of {len(states)})')
-        t0 = time.time()
         jobs = [(mode, ver, states[k::48], do_fn) for k in range(48)]
-        collect(chk, core.pool_map(syntax_worker, [j for j in jobs if j[2]], procs=PROCS), totals)
+        submit(syntax_worker, [j for j in jobs if j[2]], lambda res: collect(chk, res, totals))
         chk.add('transitions', len(g.edges))
         chk.add('traces_validated_against_impl', len(states))
         if len(chk.coverage['samples']) < 12:
             ex = next((s for s in states if s[1] and len(s[0]) == n and '[' in s[0]), None)
             if ex:
                 chk.sample(dict(token_string=list(ex[0]), pattern=tok_text(ex[0]), mode=mode, valid=True))
-        print(f'  RegexSyntax/{name}: states={len(g.states)} valid={n_valid} unsure={unsure} tlc={r.wall_s:.1f}s '
-              f'replay={time.time() - t0:.1f}s', flush=True)
+        print(f'  RegexSyntax/{name}: states={len(g.states)} valid={n_valid} unsure={unsure} tlc={r.wall_s:.1f}s', flush=True)
     # flag q: the pattern is a literal; expected = the sub-string relation computed by TLC (qsub)
     n = nq
     r, dot = done['RegexSyntax/q']
@@ -1025,7 +1047,7 @@ def run_syntax(chk: core.Check, totals: dict, done: dict) -> None:
     sts = sorted(((st['toks'], st['qsub']) for st in g.states.values()), key=lambda x: (len(x[0]), x[0]))
     pairs = [(t, u, t in qs) for (u, qs) in sts for (t, _) in sts
              if (len(t) <= 2 and len(u) <= 2) or (len(t) <= 1) or (len(t) == 2 and len(u) == n and zlib.crc32(repr((t, u)).encode()) % 16 == 0)]
-    collect(chk, core.pool_map(q_worker, [pairs[k::32] for k in range(32)], procs=PROCS), totals)
+    submit(q_worker, [pairs[k::32] for k in range(32)], lambda res: collect(chk, res, totals))
     chk.add('traces_validated_against_impl', len(pairs))
     print(f'  RegexSyntax/q: states={len(g.states)} pairs={len(pairs)}', flush=True)
 
@@ -1095,11 +1117,10 @@ def run_replace(chk: core.Check, totals: dict, done: dict) -> None:
     states = sorted(((st['rep'], st['valid'], dict(st['exp'])) for st in sts), key=lambda x: x[0])
     if not any(not v for _, v, _ in states) or not any(any(p[:1] == 'g' and p != 'g0' for p in e.get(10, ())) for _, _, e in states):
         raise tla.MachineryError('RegexReplace: vacuous (no invalid replacement or no group reference)')
-    t0 = time.time()
-    collect(chk, core.pool_map(replace_worker, [states[k::32] for k in range(32)], procs=PROCS), totals, 'replace')
+    submit(replace_worker, [states[k::32] for k in range(32)], lambda res: collect(chk, res, totals, 'replace'))
     chk.add('transitions', len(g.edges))
     chk.add('traces_validated_against_impl', len(states))
-    print(f'  RegexReplace: states={len(g.states)} tlc={r.wall_s:.1f}s replay={time.time() - t0:.1f}s', flush=True)
+    print(f'  RegexReplace: states={len(g.states)} tlc={r.wall_s:.1f}s', flush=True)
 
 
 def collect(chk: core.Check, results, totals: dict, part: str = '') -> None:
@@ -1244,8 +1265,12 @@ def run(chk: core.Check) -> None:
     plan = [p for p in plan if p[0] in parts]
     # all TLC models first (TLC_PAR JVMs at a time), then the replays
     done = tlc_batch([j for _, jobs, _ in plan for j in jobs(chk)], chk.tier)
+    t1 = time.time()
     for _, _, go in plan:
         go(chk, totals, done)
+    t2 = time.time()
+    flush()
+    print(f'  phases: tlc={t1 - chk.t0:.1f}s load={t2 - t1:.1f}s replay={time.time() - t2:.1f}s', flush=True)
     chk.coverage['details'] = {k: (round(v, 1) if isinstance(v, float) else v) for k, v in totals.items() if k != 'oracle_examples' and not k.startswith('_')}
     chk.coverage['configs'] = {
         'RegexClass': [dict(name=n, xsd_version=v, **{k: (sorted(x) if isinstance(x, set) else x) for k, x in c.items()})
